@@ -102,8 +102,13 @@ def oracle(fn):
     def wrapped(*a, _memory=None, **kw):
         if _memory and _memory != 'c':
             from . import gen
-            kw = {k: (gen.relayout(v, _memory) if isinstance(v, np.ndarray) and v.ndim >= 1 and v.size > 0 else v)
-                  for k, v in kw.items()}
+            def lay(v, depth=0):
+                if isinstance(v, np.ndarray) and v.ndim >= 1 and v.size > 0:
+                    return gen.relayout(v, _memory)
+                if isinstance(v, dict) and depth < 2:      # argument dictionaries of entry-point oracles (C20)
+                    return {k2: lay(v2, depth + 1) for k2, v2 in v.items()}
+                return v
+            kw = {k: lay(v) for k, v in kw.items()}
         return fn(*a, **kw)
     wrapped.oracle_name = name
     wrapped.plain = fn
@@ -162,7 +167,8 @@ class Ctx:
         name = orc.oracle_name
         self.count('oracle:' + name)
         if self.auto_memory and '_memory' not in inputs and 'memory' not in inputs and self.mem_p > 0 \
-                and any(isinstance(v, np.ndarray) for v in inputs.values()) and self.mem_rng.random() < self.mem_p:
+                and any(isinstance(v, np.ndarray) or (isinstance(v, dict) and any(isinstance(x, np.ndarray) for x in v.values()))
+                        for v in inputs.values()) and self.mem_rng.random() < self.mem_p:
             inputs['_memory'] = str(self.mem_rng.choice(AUTO_MEMORY_KINDS))
             self.count('memory-layout:' + inputs['_memory'])
         try:
